@@ -642,7 +642,7 @@ func (fr *Frame) mapLenFacts(mt *types.Map, m string, h Heap) {
 	card := fmt.Sprintf("(select %s %s)", carr, m)
 	w := g.fresh("mapwitness", g.sortOf(mt.Key()))
 	ks := g.sortOf(mt.Key())
-	g.defs = append(g.defs, g.ile(g.ilit(0), card))
+	g.defs = append(g.defs, and(g.ile(g.ilit(0), card), g.ile(card, g.maxLen())))
 	g.defs = append(g.defs, fmt.Sprintf("(forall ((k %s)) (! (=> (select (select %s %s) k) %s) :pattern ((select (select %s %s) k))))", ks, darr, m, g.ilt(g.ilit(0), card), darr, m))
 	g.defs = append(g.defs, fmt.Sprintf("(=> %s (select (select %s %s) %s))", g.ilt(g.ilit(0), card), darr, m, w))
 }
